@@ -46,6 +46,8 @@ type reuseWorld struct {
 	desc  string
 	fp    [4]string
 	read  [4]string
+	// containers without settings in the four configs
+	empties int
 }
 
 func newReuseWorld(r *rand.Rand) *reuseWorld {
@@ -68,13 +70,42 @@ func newReuseWorld(r *rand.Rand) *reuseWorld {
 		if objInCfg {
 			m["obj"] = map[string]interface{}{fmt.Sprintf("o%d", k): w()}
 		}
+		// fifth wave: empty containers where the targets capture (literal ones
+		// and ones emptied by Remove before the first read)
+		emptied := ""
+		switch r.Intn(5) {
+		case 0:
+			m["out"] = map[string]interface{}{}
+		case 1:
+			m["out"] = map[string]interface{}{"tmp": 1}
+			emptied = "out.tmp"
+		}
+		if r.Intn(3) == 0 {
+			l[r.Intn(len(l))] = map[string]interface{}{}
+		}
+		if r.Intn(3) == 0 {
+			m["m"].(map[string]interface{})["x"] = map[string]interface{}{}
+		}
+		if objInCfg && r.Intn(3) == 0 {
+			m["obj"] = map[string]interface{}{}
+		}
 		c, err := ucfg.NewFrom(m, ucfg.PathSep("."), ucfg.VarExp)
 		if err != nil {
 			panic(err)
 		}
+		if emptied != "" {
+			if _, err := c.Remove(emptied, -1, ucfg.PathSep(".")); err != nil {
+				panic(err)
+			}
+		}
 		w2.cfg[k] = c
-		descs = append(descs, fmt.Sprintf("c%d=%v", k, m))
+		w2.empties += emptyContainers(c)
+		descs = append(descs, fmt.Sprintf("c%d=%v (out.tmp removed again where present)", k, m))
 		em := map[string]interface{}{"obj": map[string]interface{}{fmt.Sprintf("e%d", k): w()}}
+		if r.Intn(4) == 0 {
+			em["obj"] = map[string]interface{}{}
+			w2.empties++
+		}
 		e, err := ucfg.NewFrom(em, ucfg.PathSep("."))
 		if err != nil {
 			panic(err)
@@ -167,6 +198,7 @@ const sigReuseRace = "data-race:unpack-into-reused-target-vs-readers"
 // (from, to] are returned so that the general accounting leaves them out.
 func runReusedTargets(res *harness.R, r *rand.Rand, goroutines int) (skipFrom, skipTo int) {
 	w := newReuseWorld(r)
+	res.Ev("empty_containers_in_reused_target_configs", int64(w.empties))
 	seqClean := true
 	for rep := 0; rep < 6 && seqClean; rep++ {
 		t, pre := newReuseTarget(r)
